@@ -184,10 +184,17 @@ def f_missing_body(rng, roots):
     return n, "undefined request body for resource"
 
 
-def f_forbidden_annotation(rng, roots):
-    cands = [n for n, _ in walk(roots) if kw(n) in ("URL", "Title", "Version", "INFO", "OperationId", "Protocol", "BaseUrl", "Query", "Headers", "Params", "Result", "Request") and "//" not in n.text]
+ANNOTATION_FREE = ["URL", "Title", "Version", "INFO", "OperationId", "Protocol", "BaseUrl", "Query", "Headers", "Params", "Result", "Request", "Body-under-Request"]
+
+
+def f_forbidden_annotation(rng, roots, want=None):
+    """annotate a directive that takes no annotation; [want]: the kind to annotate (every kind is asked
+    for in turn by run(), so that none depends on the luck of the draw)"""
+    kinds = [k for k in ANNOTATION_FREE if k != "Body-under-Request"]
+    cands = [n for n, _ in walk(roots) if kw(n) in kinds and "//" not in n.text and (want is None or kw(n) == want)]
     # a Body directly under a Request (not under a response, where the annotation is the body's)
-    cands += [c for n, _ in walk(roots) if kw(n) == "Request" for c in n.children if kw(c) == "Body" and "//" not in c.text]
+    if want in (None, "Body-under-Request"):
+        cands += [c for n, _ in walk(roots) if kw(n) == "Request" for c in n.children if kw(c) == "Body" and "//" not in c.text]
     n = pick(rng, cands)
     if not n:
         return None
@@ -283,20 +290,27 @@ def run(tier, out, model_ok, proof):
     per = 60 if big else 9
     lay0 = layout.Layout(random.Random(0))
     for cls, inj in FAULTS.items():
-        made = tries = 0
-        while made < per and tries < per * 6:
-            tries += 1
-            roots = treecorr.gen_structured(rng, with_macros=False)
-            r = inj(rng, roots)
-            if r is None:
-                continue
-            node, msg = r
-            lay = lay0 if rng.random() < 0.5 else layout.Layout(rng, nl=b"\n", indent=rng.choice([0, 2, 4]), trivia=0.3)
-            data, lines = directive_lines(roots, lay)
-            cid = "%s_%d" % (cls, made)
-            cases.append(treecorr.single_file_case(cid, data))
-            metas[cid] = (cls, lines.get(id(node)), msg)
-            made += 1
+        # a class with variants (the kinds a forbidden annotation may sit on) gets its share of cases
+        # for EVERY variant, so that none depends on the luck of the draw
+        variants = ANNOTATION_FREE if cls == "forbidden-annotation" else [None]
+        share = max(2, per // len(variants)) if variants != [None] else per
+        made = 0
+        for v in variants:
+            got = tries = 0
+            while got < share and tries < share * 40:
+                tries += 1
+                roots = treecorr.gen_structured(rng, with_macros=False)
+                r = inj(rng, roots, v) if v is not None else inj(rng, roots)
+                if r is None:
+                    continue
+                node, msg = r
+                lay = lay0 if rng.random() < 0.5 else layout.Layout(rng, nl=b"\n", indent=rng.choice([0, 2, 4]), trivia=0.3)
+                data, lines = directive_lines(roots, lay)
+                cid = "%s_%d" % (cls, made)
+                cases.append(treecorr.single_file_case(cid, data))
+                metas[cid] = (cls, lines.get(id(node)), msg)
+                made += 1
+                got += 1
     if model_ok:
         res, crashes, mres, mism, skipped = catcorr.run_catalog(cases)
     else:
